@@ -69,7 +69,8 @@ Definition consumed (lim : nat) (l : kvmap) : kvmap := firstn (Nat.max 1 lim) l.
 
 (* ---------- store state, wrappers, calls ---------- *)
 Definition logent := (N * N * list bytes)%type.       (* debug wrapper id, command bit, parameters *)
-Record st := mkSt { m : kvmap; closed : bool; log : list logent (* newest first *) }.
+Record st := mkSt { m : kvmap; closed : bool; log : list logent (* newest first *);
+                    nfl : nat (* Flush calls that reached the mapDB (counted by the harness's spy below the stack) *) }.
 
 Inductive wrapper := WFlush | WDebug (id mask : N).
 
@@ -92,35 +93,39 @@ Inductive out :=
 | OOk | OClosed | ONotFound | OVal (v : bytes) | OBool (b : bool)
 | OKVs (l : kvmap) | OKeys (l : list bytes) | OPanic | ORealm (r : bytes) | OBadHandle.
 
-Definition set_m (s : st) (m' : kvmap) : st := mkSt m' (closed s) (log s).
-Definition add_log (s : st) (e : logent) : st := mkSt (m s) (closed s) (e :: log s).
+Definition add_log (s : st) (e : logent) : st := mkSt (m s) (closed s) (e :: log s) (nfl s).
 
 (* batchedMutations.Commit on the view with this realm: all sets, then all deletes *)
 Definition apply_commit (realm : bytes) (sets : kvmap) (dels : list bytes) (mm : kvmap) : kvmap :=
   fold_left (fun acc k => remove (realm ++ k) acc) dels
     (fold_left (fun acc e => put (realm ++ fst e) (snd e) acc) sets mm).
 
-(* the mapDB method itself (every entry point tests the shared closed flag first, where the Go code does) *)
-Definition base_op (realm : bytes) (o : kvop) (s : st) : st * out :=
+(* the mapDB method itself on (map, closed flag); every entry point tests the shared closed flag first,
+   exactly where the Go code does *)
+Definition core (realm : bytes) (o : kvop) (mm : kvmap) (cl : bool) : kvmap * bool * out :=
   match o with
-  | KClose => (mkSt (m s) true (log s), OOk)
-  | KBSet _ _ | KBDelete _ => (s, OOk)                       (* batch Set/Delete never look at the flag *)
+  | KClose => (mm, true, OOk)
+  | KBSet _ _ | KBDelete _ => (mm, cl, OOk)                  (* batch Set/Delete never look at the flag *)
   | _ =>
-    if closed s then (s, OClosed) else
+    if cl then (mm, cl, OClosed) else
     match o with
-    | KGet k => (s, match lookup (realm ++ k) (m s) with Some v => OVal v | None => ONotFound end)
-    | KHas k => (s, OBool (match lookup (realm ++ k) (m s) with Some _ => true | None => false end))
-    | KSet k v => (set_m s (put (realm ++ k) v (m s)), OOk)
-    | KDelete k => (set_m s (remove (realm ++ k) (m s)), OOk)
-    | KDeletePrefix p => (set_m s (del_prefix (realm ++ p) (m s)), OOk)
-    | KClear => (set_m s (del_prefix realm (m s)), OOk)
-    | KIterate p DBad _ | KIterateKeys p DBad _ => (s, OPanic)     (* kvstore.GetIterDirection panics *)
-    | KIterate p d lim => (s, OKVs (consumed lim (iterate realm p d (m s))))
-    | KIterateKeys p d lim => (s, OKeys (map fst (consumed lim (iterate realm p d (m s)))))
-    | KCommit sets dels => (set_m s (apply_commit realm sets dels (m s)), OOk)
-    | _ => (s, OOk)                                           (* Flush, WithRealm, Batched *)
+    | KGet k => (mm, cl, match lookup (realm ++ k) mm with Some v => OVal v | None => ONotFound end)
+    | KHas k => (mm, cl, OBool (match lookup (realm ++ k) mm with Some _ => true | None => false end))
+    | KSet k v => (put (realm ++ k) v mm, cl, OOk)
+    | KDelete k => (remove (realm ++ k) mm, cl, OOk)
+    | KDeletePrefix p => (del_prefix (realm ++ p) mm, cl, OOk)
+    | KClear => (del_prefix realm mm, cl, OOk)
+    | KIterate p DBad _ | KIterateKeys p DBad _ => (mm, cl, OPanic)     (* kvstore.GetIterDirection panics *)
+    | KIterate p d lim => (mm, cl, OKVs (consumed lim (iterate realm p d mm)))
+    | KIterateKeys p d lim => (mm, cl, OKeys (map fst (consumed lim (iterate realm p d mm))))
+    | KCommit sets dels => (apply_commit realm sets dels mm, cl, OOk)
+    | _ => (mm, cl, OOk)                                      (* Flush, WithRealm, Batched *)
     end
   end.
+
+Definition is_flush (o : kvop) : nat := match o with KFlush => 1 | _ => 0 end.
+Definition base_op (realm : bytes) (o : kvop) (s : st) : st * out :=
+  let '(mm', cl', r) := core realm o (m s) (closed s) in (mkSt mm' cl' (log s) (nfl s + is_flush o), r).
 
 (* what a debug wrapper reports for a call: command bit and parameters *)
 Definition cmd_of (o : kvop) : option (N * list bytes) :=
@@ -232,7 +237,7 @@ Fixpoint run (w : world) (h : list op) : world * list out :=
   end.
 
 (* mapdb.NewMapDB(): one root view with the empty realm *)
-Definition init : world := mkW (mkSt [] false []) [mkView [] []] [].
+Definition init : world := mkW (mkSt [] false [] 0) [mkView [] []] [].
 
 (* ====================================================================================================
    Specification: ONE ordered map keyed by the full key (realm||key), kept sorted; views are realms;
@@ -263,6 +268,13 @@ Definition log_of (stk : list wrapper) (o : kvop) : list logent :=
   | None => []
   | Some (c, ps) => flat_map (fun w => match w with WDebug id mask => if hasbits mask c then [(id, c, ps)] else [] | WFlush => [] end) stk
   end.
+
+(* flush-on-write: how many Flush calls reach the store for one call through a stack: the call itself if it
+   is Flush, plus one per flushkv wrapper after a mutation that succeeded *)
+Definition count_flush (stk : list wrapper) : nat :=
+  length (filter (fun w => match w with WFlush => true | _ => false end) stk).
+Definition flushes_of (stk : list wrapper) (o : kvop) (r : out) : nat :=
+  (is_flush o + if mutating o && is_ok r then count_flush stk else 0)%nat.
 
 Definition sbase (realm : bytes) (o : kvop) (mm : kvmap) (cl : bool) : kvmap * bool * out :=
   match o with
